@@ -88,6 +88,12 @@ func genWord(rt *rapid.T, label string) string {
 // case changes, punctuation and non-ASCII words.
 func genCmd(rt *rapid.T) Cmd {
 	var c Cmd
+	if rapid.IntRange(0, 29).Draw(rt, "stub") == 15 {
+		// an entry without any searchable text (placeholders, separators, one-letter words, stop words)
+		c.Command = rapid.SampledFrom([]string{"-", "?", "--", "x", "", "the", "# ---"}).Draw(rt, "stubcmd")
+		c.Description = rapid.SampledFrom([]string{"", "", "...", "a", "to the"}).Draw(rt, "stubdesc")
+		return c
+	}
 	tool := rapid.SampledFrom(tools).Draw(rt, "tool")
 	nw := rapid.IntRange(0, 3).Draw(rt, "cw")
 	parts := []string{tool}
@@ -302,7 +308,7 @@ func mutateOpt(rt *rapid.T, o Opts, field string) Opts {
 			nb[k] = v
 		}
 		w := genWord(rt, "bword")
-		f := rapid.SampledFrom([]float64{1.5, 2, 3}).Draw(rt, "bfac")
+		f := rapid.SampledFrom([]float64{1.5, 2, 3, 1.504, 1.496, 0.5, 1.0585, 1.0595}).Draw(rt, "bfac")
 		if nb[w] == f {
 			f += 0.25
 		}
@@ -311,7 +317,7 @@ func mutateOpt(rt *rapid.T, o Opts, field string) Opts {
 	case "ponly":
 		o.PipelineOnly = !o.PipelineOnly
 	case "pboost":
-		o.PipelineBoost = rapid.SampledFrom([]float64{0, 1.5, 2, 0.5}).Filter(func(v float64) bool { return v != o.PipelineBoost }).Draw(rt, "pboost2")
+		o.PipelineBoost = rapid.SampledFrom([]float64{0, 1.5, 2, 0.5, 1.504, 1.4999999}).Filter(func(v float64) bool { return v != o.PipelineBoost }).Draw(rt, "pboost2")
 	case "fuzzy":
 		o.UseFuzzy = !o.UseFuzzy
 	case "fthr":
